@@ -111,9 +111,10 @@ def matrix(kind, tier, seed):
                 e = (0.5, 1.0, 2.0, 0.25)[k % 4]
                 M.append(_c("PaVeBaPartialGP", "VVD2a", order=o, eps=e, script=dict(kind="rect", G=4), max_steps=30))
                 M.append(_c("PaVeBa", "VVD2a", order=o, eps=e, script=dict(kind="ball", G=4), max_steps=25))
+                M.append(_c("VOGP", "VVD2a", order=o, eps=e, script=dict(kind="rect", G=4), max_steps=25))
+                M.append(_c("VOGP", "VVD2b", order=o, eps=e, script=dict(kind="rect", G=5), max_steps=30))
                 if k < 12:
                     M.append(_c("PaVeBaGP", "VVD2a", order=o, eps=e, type="IH", script=dict(kind="rect", G=4), max_steps=25))
-                    M.append(_c("VOGP", "VVD2a", order=o, eps=e, script=dict(kind="rect", G=4), max_steps=25))
                 if k < 8:
                     M.append(_c("EpsilonPAL", "VVD2a" if k % 2 else "VVD3a", eps=e, script=dict(kind="rect", G=4 if k % 2 else 3), max_steps=25))
             M.append(_c("PaVeBaGP", "VVD2a", order=("Wint", WI["obtuse"]), eps=1.0, type="DE", script=dict(kind="ell", G=4), max_steps=12))
@@ -147,6 +148,12 @@ def matrix(kind, tier, seed):
         M.append(_c("PaVeBaPartialGP", "VVD2a", order=("orth", 2), eps=0.05, contraction=4, costs=[2, 3], budget=9, batch=2, max_steps=30))
         M.append(_c("DecoupledGP", "VVD2a", order=("orth", 2), costs=[1, 2], budget=8, max_steps=20))
         M.append(_c("DecoupledGP", "VVD2tiny", order=("theta", 60), costs=[1, 1], budget=5, batch=2, max_steps=20))
+        # batch sizes larger than objectives x offered designs (the pooled candidate list is shorter than the batch)
+        M.append(_c("DecoupledGP", "VVD2tiny", order=("orth", 2), costs=[1, 1], budget=30, batch=9, max_steps=6))
+        M.append(_c("PaVeBaPartialGP", "VVD2tiny", order=("orth", 2), eps=0.3, contraction=8, batch=9, max_steps=10))
+        for e in (0.25, 0.5, 1.0):
+            M.append(_c("PaVeBaPartialGP", "VVD2a", order=("Wint", [[1, 0], [0, 1]]), eps=e, batch=5, script=dict(kind="rect", G=4), max_steps=30))
+            M.append(_c("PaVeBaPartialGP", "VVD2a", order=("Wint", [[2, -1], [-1, 2]]), eps=e, batch=7, costs=[1, 2], budget=400, script=dict(kind="rect", G=4), max_steps=30))
         M.append(_c("NaiveElimination", "VVD2a", order=("theta", 90), eps=0.2, L=3))
         M.append(_c("NaiveElimination", "VVD3a", order=("cone3d", "acute"), eps=0.2, L=1))
         M.append(_c("NaiveElimination", "VVD2tiny", order=("theta", 45), eps=2.0, noise=0.5))      # default (theoretical) L
@@ -187,6 +194,8 @@ def matrix(kind, tier, seed):
         c = copy.deepcopy(c)
         if c.get("script") and k % 2 == 1:
             c["script"]["wander"] = True      # every other scripted run: posterior means drift, regions need not contain a fixed truth
+        if c.get("script") and k % 3 != 2:
+            c["script"]["poison"] = True      # frame check: regions of discarded designs are overwritten after every step
         c["tid"] = k + 1
         c.setdefault("noise", 0.01)
         c.setdefault("max_steps", 60)
